@@ -364,9 +364,24 @@ def renders(x):
                 sql = "EXC " + type(e).__name__
             out.append(sql)
             if par:
-                out.append(repr(ctx.parameterizer.values))
+                out.append(list(ctx.parameterizer.values))
     out.append(repr(getattr(x, "alias", None)) if "alias" in getattr(x, "__dict__", {}) else "")
     return out
+
+
+def renders_equal(a, b):
+    if len(a) != len(b):
+        return False
+    for x, y in zip(a, b):
+        if isinstance(x, list):
+            if len(x) != len(y):
+                return False
+            for p, q in zip(x, y):
+                if not (p is q or p == q):
+                    return False
+        elif not (x == y):
+            return False
+    return True
 
 
 class Watch:
@@ -383,7 +398,7 @@ class Watch:
         if self.rebuild is None:
             return False
         twin = self.rebuild()
-        return renders(self.obj) == renders(twin)
+        return renders_equal(renders(self.obj), renders(twin))
 
 
 def fresh(factory):
@@ -444,7 +459,7 @@ def step(name, ci, d, s, n, follow=None):
             d2 = fcall(R2, s, n, 2)
             d1 = call(R2, s, n, 1)
             if not (same_nt(snap_nt(d1), snap_nt(c1)) and same_nt(snap_nt(d2), snap_nt(c2))):
-                if not (renders(d1) == renders(c1) and renders(d2) == renders(c2)):
+                if not (renders_equal(renders(d1), renders(c1)) and renders_equal(renders(d2), renders(c2))):
                     ok, why = False, "the two continuations depend on the order in which they were made"
         except Exception as e:
             ok, why = False, "continuations raise in the other order: " + type(e).__name__
